@@ -50,6 +50,9 @@ CLAIMS.update({
               'C06_miss_is_the_code, C06_validation, C06_other_methods: for every request and every must-not-store origin reply '
               '(no-store either side; not a plain GET; status 1xx/206/304; must-understand with a status not understood; no explicit '
               'freshness and not heuristically cacheable; broken body) the program after the reply contains no entry write on any path. '
+              'C06_history_stored: along every sequential history every entry of the store has the status and body of a full response to a plain GET that the '
+              'property allows to store (inductive evidence Stor: stored after passing the storability test, then freshened only by 304s without no-store); '
+              'the same invariant under every interleaving (C16_store_invariant). '
               'Monitor mon_C06 checks every Set the real store receives (recording driver.Conn, statuses 100-599, body streams that fail) each run.'),
         note=COMMON_NOTE),
     'C11': dict(
